@@ -7,9 +7,16 @@
    splitting; negation under reversal; equality under degree elevation; for closed chains of straight edges the
    shoelace value is minus the sum of the edge areas (Green), negated by reversal, invariant under translation and
    rotation, multiplied by k*k under scaling, area = |.|, direction = sign; Rectangle has signed area -w*h.
-   NOT covered by a theorem: |signed_area - Green area| <= 10*length for curved paths (needs a chord-deviation bound
-   for regularSample), positivity for every simple counter-clockwise contour (no formal notion of simple), ellipse and
-   circle signs -- all watched by the search against exact Green integrals. *)
+   FLATTENING ERROR (Proofs/C10flat.v, C10flat2.v; definitions arclen / arc_chord_area / fine_partition / chords_from / flat_ok / flat_chords
+   are there): for any C1 plane curve the area between an arc and its chord is at most (arc length)^2/4 (chord <= arc by projection,
+   |(g - g(a)) x g'| <= sigma * sigma'); for a partition whose pieces have arc length <= d the chords miss the area integral by at most
+   d/4 * arc length; for a closed chain of lines, quadratics and cubics each flattened by such a partition the shoelace value of all the
+   chords differs from the exact Green area by at most d/4 * total arc length, hence by at most 10 * length when d <= 40; and the edges
+   returned by the model's Cubic_flatten / Quad_flatten ARE the chords of a parameter list from 0 to 1 (joined with C17's specification),
+   so the bound holds of what the flatteners return.  Arc length is the exact integral of the speed, not the 24-point quadrature.
+   NOT covered by a theorem: that the cut parameters of regularSample / sample are at most ~degree of arc length apart (rests on the
+   quadrature's accuracy, C04's unproved clause: a hypothesis of the statements above), positivity for every simple counter-clockwise
+   contour (no formal notion of simple), ellipse and circle signs -- watched by the search against exact Green integrals. *)
 
 From Flocq Require Import Core.   (* bpow, radix2 for the float statements; imported first so that [float] below is PrimFloat.float *)
 From Coq Require Import PrimFloat.
@@ -17,6 +24,7 @@ From Coq Require Import ZArith List Bool Reals Lra Permutation.
 From Coquelicot Require Import Coquelicot.
 From BZ Require Import Base.Ops Gen.Point Gen.Affine Gen.Line Gen.Quad Gen.Cubic Hand.Shoelace Proofs.C10 Proofs.C10pos Proofs.C10shapes Hand.Shapes Gen.Shapes Proofs.Bridge Proofs.C10float Base.FloatErr Proofs.C01float.
 Import ListNotations.
+From BZ Require Hand.Sample Proofs.C04 Proofs.C16 Proofs.C17 Proofs.C10flat Proofs.C10flat2.
 Open Scope R_scope.
 
 Theorem C10_area_is_integral_line :
@@ -215,6 +223,75 @@ Proof. exact cubic_area_float_1e14. Qed.
 Theorem C10_quad_area_example :
   val_close (Quad_area FOps ex_quad) (- 4675 / 3) (1e-14 * (150 * 150) + bpow radix2 (-1070)).
 Proof. exact quad_area_example. Qed.
+Theorem C10_arc_chord_area_bound :
+  forall x y x' y' : R -> R, (forall t : R_AbsRing, is_derive x t (x' t)) -> (forall t : R_AbsRing, is_derive y t (y' t)) -> (forall t : R_UniformSpace, continuous x' t) -> (forall t : R_UniformSpace, continuous y' t) -> forall a b : R, a <= b -> Rabs (C10flat.arc_chord_area x y x' a b) <= C10flat.arclen x' y' a b * C10flat.arclen x' y' a b / 4.
+Proof. exact @C10flat.arc_chord_area_bound. Qed.
+Theorem C10_chord_le_arclen :
+  forall x y x' y' : R -> R, (forall t : R_AbsRing, is_derive x t (x' t)) -> (forall t : R_AbsRing, is_derive y t (y' t)) -> (forall t : R_UniformSpace, continuous x' t) -> (forall t : R_UniformSpace, continuous y' t) -> forall a t : R, a <= t -> C04.norm2 (x t - x a) (y t - y a) <= C10flat.arclen x' y' a t.
+Proof. exact @C10flat.chord_le_arclen. Qed.
+Theorem C10_flatten_error :
+  forall x y x' y' : R -> R, (forall t : R_AbsRing, is_derive x t (x' t)) -> (forall t : R_AbsRing, is_derive y t (y' t)) -> (forall t : R_UniformSpace, continuous x' t) -> (forall t : R_UniformSpace, continuous y' t) -> forall (d a : R) (ts : list R) (b : R), C10flat.fine_partition (C10flat.arclen x' y') d a ts b -> Rabs (RInt (C10flat.ydx y x') a b - sum_line_areas (C10flat.chords_from (C10flat.gpt x y) a ts)) <= d / 4 * C10flat.arclen x' y' a b.
+Proof. exact @C10flat.flatten_error. Qed.
+Theorem C10_cubic_arc_chord_area_bound :
+  forall (s : seg4 R) (a b : R), a <= b -> Rabs (RInt (fun t : R => py (Cubic_pointAtTime ROps s t) * C04.cubic_dx s t) a b - Line_area ROps (C10flat.cubic_chord s a b)) <= C10flat.cubic_arclen s a b * C10flat.cubic_arclen s a b / 4.
+Proof. exact @C10flat.cubic_arc_chord_area_bound. Qed.
+Theorem C10_quad_arc_chord_area_bound :
+  forall (s : seg3 R) (a b : R), a <= b -> Rabs (RInt (fun t : R => py (Quad_pointAtTime ROps s t) * C04.quad_dx s t) a b - Line_area ROps (C10flat.quad_chord2 s a b)) <= C10flat.quad_arclen s a b * C10flat.quad_arclen s a b / 4.
+Proof. exact @C10flat.quad_arc_chord_area_bound. Qed.
+Theorem C10_cubic_chord_le_arclen :
+  forall (s : seg4 R) (a b : R), a <= b -> Line_length ROps (C10flat.cubic_chord s a b) <= C10flat.cubic_arclen s a b.
+Proof. exact @C10flat.cubic_chord_le_arclen. Qed.
+Theorem C10_quad_chord_le_arclen :
+  forall (s : seg3 R) (a b : R), a <= b -> Line_length ROps (C10flat.quad_chord2 s a b) <= C10flat.quad_arclen s a b.
+Proof. exact @C10flat.quad_chord_le_arclen. Qed.
+Theorem C10_cubic_flatten_error :
+  forall (s : seg4 R) (d : R) (ts : list R), C10flat.fine_partition (C10flat.cubic_arclen s) d 0 ts 1 -> Rabs (Cubic_area ROps s - sum_line_areas (C10flat.chords_from (Cubic_pointAtTime ROps s) 0 ts)) <= d / 4 * C10flat.cubic_arclen s 0 1.
+Proof. exact @C10flat.cubic_flatten_error. Qed.
+Theorem C10_quad_flatten_error :
+  forall (s : seg3 R) (d : R) (ts : list R), C10flat.fine_partition (C10flat.quad_arclen s) d 0 ts 1 -> Rabs (Quad_area ROps s - sum_line_areas (C10flat.chords_from (Quad_pointAtTime ROps s) 0 ts)) <= d / 4 * C10flat.quad_arclen s 0 1.
+Proof. exact @C10flat.quad_flatten_error. Qed.
+Theorem C10_flat_chords_closed :
+  forall (d : R) (fl : list (segment R * list R)), List.Forall (C10flat.flat_ok d) fl -> C10flat.closed_seg_chain (map fst fl) -> closed_chain (C10flat.flat_chords fl).
+Proof. exact @C10flat.flat_chords_closed. Qed.
+Theorem C10_flat_chords_area_error :
+  forall (d : R) (fl : list (segment R * list R)), 0 <= d -> List.Forall (C10flat.flat_ok d) fl -> Rabs (C10flat.sum_seg_areas (map fst fl) - sum_line_areas (C10flat.flat_chords fl)) <= d / 4 * C10flat.total_length (map fst fl).
+Proof. exact @C10flat.flat_chords_area_error. Qed.
+Theorem C10_flattened_signed_area_error :
+  forall (d : R) (fl : list (segment R * list R)), 0 <= d -> List.Forall (C10flat.flat_ok d) fl -> C10flat.closed_seg_chain (map fst fl) -> Rabs (signed_area_lines ROps (C10flat.flat_chords fl) - - C10flat.sum_seg_areas (map fst fl)) <= d / 4 * C10flat.total_length (map fst fl).
+Proof. exact @C10flat.flattened_signed_area_error. Qed.
+Theorem C10_flattened_signed_area_within_10_length :
+  forall (d : R) (fl : list (segment R * list R)), 0 <= d <= 40 -> List.Forall (C10flat.flat_ok d) fl -> C10flat.closed_seg_chain (map fst fl) -> Rabs (signed_area_lines ROps (C10flat.flat_chords fl) - - C10flat.sum_seg_areas (map fst fl)) <= 10 * C10flat.total_length (map fst fl).
+Proof. exact @C10flat.flattened_signed_area_within_10_length. Qed.
+Theorem C10_arch100_partition :
+  C10flat.fine_partition (C10flat.cubic_arclen (C10flat.arch 100)) 100 0 [1 / 2; 1] 1.
+Proof. exact @C10flat.arch100_partition. Qed.
+Theorem C10_arch100_flatten_error :
+  Rabs (Cubic_area ROps (C10flat.arch 100) - sum_line_areas (C10flat.chords_from (Cubic_pointAtTime ROps (C10flat.arch 100)) 0 [1 / 2; 1])) <= 5000.
+Proof. exact @C10flat.arch100_flatten_error. Qed.
+Theorem C10_arch100_actual_defect :
+  Cubic_area ROps (C10flat.arch 100) - sum_line_areas (C10flat.chords_from (Cubic_pointAtTime ROps (C10flat.arch 100)) 0 [1 / 2; 1]) = 2250.
+Proof. exact @C10flat.arch100_actual_defect. Qed.
+Theorem C10_dshape10_within_10_length :
+  Rabs (signed_area_lines ROps (C10flat.flat_chords (C10flat.dshape 10)) - - C10flat.sum_seg_areas (map fst (C10flat.dshape 10))) <= 10 * C10flat.total_length (map fst (C10flat.dshape 10)).
+Proof. exact @C10flat.dshape10_within_10_length. Qed.
+Theorem C10_dshape10_values :
+  - C10flat.sum_seg_areas (map fst (C10flat.dshape 10)) = -60 /\ signed_area_lines ROps (C10flat.flat_chords (C10flat.dshape 10)) = -75 / 2.
+Proof. exact @C10flat.dshape10_values. Qed.
+Theorem C10_cubic_flatten_edges_are_chords :
+  forall (cap : nat) (c : seg4 R) (d : R) (es : list Sample.edge), 0 < d -> Sample.Cubic_flatten ROps cap c d = Sample.Ok es -> exists ts : list R, C17.param_list ts /\ map fst es = C10flat.chords_of (Cubic_pointAtTime ROps c) ts.
+Proof. exact @C10flat2.cubic_flatten_edges_are_chords. Qed.
+Theorem C10_quad_flatten_edges_are_chords :
+  forall (cap : nat) (q : seg3 R) (d : R) (es : list Sample.edge), 0 < d -> Sample.Quad_flatten ROps cap q d = Sample.Ok es -> exists ts : list R, C17.param_list ts /\ map fst es = C10flat.chords_of (Quad_pointAtTime ROps q) ts.
+Proof. exact @C10flat2.quad_flatten_edges_are_chords. Qed.
+Theorem C10_cubic_flatten_area_error :
+  forall (cap : nat) (c : seg4 R) (d : R) (es : list Sample.edge), 0 < d -> Sample.Cubic_flatten ROps cap c d = Sample.Ok es -> exists ts : list R, C17.param_list ts /\ map fst es = C10flat.chords_of (Cubic_pointAtTime ROps c) ts /\ (forall D : R, C10flat.fine_partition_01 (C10flat.cubic_arclen c) D ts -> Rabs (Cubic_area ROps c - sum_line_areas (map fst es)) <= D / 4 * C10flat.cubic_arclen c 0 1).
+Proof. exact @C10flat2.cubic_flatten_area_error. Qed.
+Theorem C10_quad_flatten_area_error :
+  forall (cap : nat) (q : seg3 R) (d : R) (es : list Sample.edge), 0 < d -> Sample.Quad_flatten ROps cap q d = Sample.Ok es -> exists ts : list R, C17.param_list ts /\ map fst es = C10flat.chords_of (Quad_pointAtTime ROps q) ts /\ (forall D : R, C10flat.fine_partition_01 (C10flat.quad_arclen q) D ts -> Rabs (Quad_area ROps q - sum_line_areas (map fst es)) <= D / 4 * C10flat.quad_arclen q 0 1).
+Proof. exact @C10flat2.quad_flatten_area_error. Qed.
+Theorem C10_cubic_short_chord_area_error :
+  forall (cap : nat) (c : seg4 R) (d : R), 0 < d -> Cubic_length ROps c < d -> exists es : list Sample.edge, Sample.Cubic_flatten ROps cap c d = Sample.Ok es /\ map fst es = [{| l0 := c0 c; l1 := c3 c |}] /\ Rabs (Cubic_area ROps c - sum_line_areas (map fst es)) <= C10flat.cubic_arclen c 0 1 * C10flat.cubic_arclen c 0 1 / 4.
+Proof. exact @C10flat2.cubic_short_chord_area_error. Qed.
 
 Print Assumptions C10_area_is_integral_line.
 Print Assumptions C10_area_is_integral_quad.
@@ -281,3 +358,26 @@ Print Assumptions C10_quad_area_reversed_float.
 Print Assumptions C10_cubic_area_reversed_float.
 Print Assumptions C10_cubic_area_float_1e14.
 Print Assumptions C10_quad_area_example.
+Print Assumptions C10_arc_chord_area_bound.
+Print Assumptions C10_chord_le_arclen.
+Print Assumptions C10_flatten_error.
+Print Assumptions C10_cubic_arc_chord_area_bound.
+Print Assumptions C10_quad_arc_chord_area_bound.
+Print Assumptions C10_cubic_chord_le_arclen.
+Print Assumptions C10_quad_chord_le_arclen.
+Print Assumptions C10_cubic_flatten_error.
+Print Assumptions C10_quad_flatten_error.
+Print Assumptions C10_flat_chords_closed.
+Print Assumptions C10_flat_chords_area_error.
+Print Assumptions C10_flattened_signed_area_error.
+Print Assumptions C10_flattened_signed_area_within_10_length.
+Print Assumptions C10_arch100_partition.
+Print Assumptions C10_arch100_flatten_error.
+Print Assumptions C10_arch100_actual_defect.
+Print Assumptions C10_dshape10_within_10_length.
+Print Assumptions C10_dshape10_values.
+Print Assumptions C10_cubic_flatten_edges_are_chords.
+Print Assumptions C10_quad_flatten_edges_are_chords.
+Print Assumptions C10_cubic_flatten_area_error.
+Print Assumptions C10_quad_flatten_area_error.
+Print Assumptions C10_cubic_short_chord_area_error.
